@@ -25,13 +25,15 @@ from prompt_toolkit.utils import take_using_weights
 
 ID = "C12"
 DRIVER = "drv_c12"
-PROPS = ["Ptk.Props.C12", "Ptk.Props.C12Orig", "Ptk.Props.C12Gen", "Ptk.Props.C12Loop", "Ptk.Props.C12Grow"]
+PROPS = ["Ptk.Props.C12", "Ptk.Props.C12Tree", "Ptk.Props.C12Orig", "Ptk.Props.C12Gen", "Ptk.Props.C12Loop", "Ptk.Props.C12Grow"]
 LEVEL_TEXT = ("Lean 4 theorems over an executable model of Dimension, take_using_weights (explicit stream state "
               "machine, integer cross-multiplication), _child_generators/_grow_sizes and the two divide functions: "
-              "termination for every list of valid dimensions incl. weight 0, too-small iff the minimums do not fit, "
-              "min <= size <= max, sum <= available, preferred before extra, space used up to the maxima, adjacent "
-              "disjoint regions; tied to /repo on every run by a differential correspondence (exhaustive small scope + "
-              "random) on the real HSplit/VSplit and by the property oracle under a SIGALRM watchdog")
+              "termination for every list of valid dimensions incl. weight 0 (from a fairness theorem for the "
+              "stream), too-small iff the minimums do not fit, min <= size <= max, sum <= available, preferred before "
+              "extra, space used up to the maxima, adjacent disjoint regions; for nested HSplit/VSplit/Window trees: "
+              "every drawn window inside the root region and no two overlapping; for the pre-fix code: non-termination "
+              "on the F4 witness and equality with the fixed code on positive weights; tied to /repo on every run by a differential correspondence (exhaustive small scope + "
+              "random) on the real HSplit/VSplit and by the property oracle under a CPU-time watchdog")
 LEVEL_NOTE = ("trusted: Lean kernel, axioms propext/Classical.choice/Quot.sound only; the hand-written model "
               "(validated by the correspondence, not proved equal to the Python); float division == exact rational "
               "comparison in take_using_weights for operands < 2^26")
@@ -40,7 +42,8 @@ RULE = ("exhaustive: every list of <= N children over all valid (min<=preferred<
         "lists of 3+ children alternate between the two), plus for each list one seeded alignment/padding variant; then seeded random lists of up to 8 children with "
         "unspecified fields, larger sizes/weights, all alignments, int and Dimension paddings, is_done, and "
         "write_to_screen positions; plus direct cases for Dimension(), sum/max_layout_dimensions and "
-        "take_using_weights; a case is non-trivial when at least one division has to grow a child")
+        "take_using_weights; random trees of nested HSplit/VSplit/Window (depth <= 3) compared window by window in "
+        "drawing order; a case is non-trivial when at least one division has to grow a child")
 EXHAUSTIVE = True
 EXHAUSTIVE_SCOPE = {
     "quick": "children<=2 over min in {0,1}, preferred<=2, max in {..2,unbounded}, weight in {0,1,2}; children=3 over "
@@ -48,17 +51,23 @@ EXHAUSTIVE_SCOPE = {
     "thorough": "children<=2 over min in {0,1,2}, preferred<=3, max in {..3,unbounded}, weight in {0,1,2,3}; children=3 "
                 "over the quick 2-children alphabet; children=4 over min in {0,1}, preferred<=1, max in {..1,unbounded}, "
                 "weight in {0,1}; avail 0..10; HSplit and VSplit"}
-TRUSTED = ["harness/c12.py compares the return value of _divide_heights/_divide_widths (watchdog: a run longer than "
-           "the time limit is 'err:Hang') and Screen.visible_windows_to_write_positions after write_to_screen",
-           "Ptk/Model/C12.lean is a hand translation of dimension.py, take_using_weights and the divide/grow code "
-           "(correspondence-checked)"]
+TRUSTED = ["harness/c12.py compares the return value of _divide_heights/_divide_widths (watchdog: a call that burns "
+           "more than 0.5 s CPU, confirmed once with 2 s, is 'err:Hang') and "
+           "Screen.visible_windows_to_write_positions after write_to_screen",
+           "Ptk/Model/C12.lean, C12Tree.lean are hand translations of dimension.py, take_using_weights, the "
+           "divide/grow code and the preferred_width/preferred_height/write_to_screen of the two split classes "
+           "(correspondence-checked); Ptk/Model/C12Orig.lean is the pre-fix loop (correspondence-checked on "
+           "positive weights, where it must agree with the fixed code)",
+           "Drivers/C12.lean doubles the model's fuel until it answers (justified by divide_terminates and "
+           "divide_fuel_independent)"]
 ASSUMPTIONS = ["children are Windows with a DummyControl whose height/width Dimension is given explicitly "
                "(content-derived preferred sizes are an input of the model: any valid Dimension)",
                "Dimension objects are not mutated after construction (min <= preferred <= max)",
                "float division in take_using_weights is exact for the operand range (< 2^26)"]
-PARTIAL_SCOPE = ["the drawing of each child inside its region (Window.write_to_screen) is not modelled, only the "
-                 "region handed to it", "nested splits are covered through sum/max_layout_dimensions only",
-                 "VSplit.write_to_screen cross-axis height = write_position.height (modelled as such)"]
+PARTIAL_SCOPE = ["the drawing of each window inside its region (Window.write_to_screen) is not modelled, only the "
+                 "region handed to it; windows with dont_extend_width/height, explicit width=/height= on a split, "
+                 "z_index and content-derived preferred sizes (they are an input: any valid Dimension) are not modelled",
+                 "termination is proved as existence of enough fuel (no explicit bound); the driver doubles its fuel"]
 
 TIME_LIMIT = 0.5     # CPU seconds (ITIMER_VIRTUAL: a busy loop burns CPU, a descheduled process does not)
 CONFIRM_LIMIT = 2.0  # a first time-out is confirmed once with a longer limit before it counts as a hang
@@ -139,6 +148,74 @@ def pad_spec(pad):
     return [pad, pad, None, pad] if isinstance(pad, int) else pad
 
 
+
+# ------------------------------------------------------------------ nested containers
+def rand_tree(rng, depth, ids, root=True):
+    """['W', id, wspec, hspec] | ['H'|'V', align, pad, [children]]; the root is always a split"""
+    if depth == 0 or (not root and rng.randrange(3) == 0):
+        ids[0] += 1
+        return ["W", ids[0], rand_spec(rng), rand_spec(rng)]
+    return [rng.choice("HV"), rng.randrange(4), rand_pad(rng),
+            [rand_tree(rng, depth - 1, ids, False) for _ in range(rng.choice([0, 1, 2, 2, 3]))]]
+
+
+def tree_tokens(t):
+    if t[0] == "W":
+        return f"W {t[1]} {spec_tokens(t[2])} {spec_tokens(t[3])}"
+    return (f"{t[0]} {t[1]} {spec_tokens(pad_spec(t[2]))} {len(t[3])}"
+            + "".join(" " + tree_tokens(c) for c in t[3]))
+
+
+def tree_size(t):
+    return 1 if t[0] == "W" else 1 + sum(tree_size(c) for c in t[3])
+
+
+def build_tree(t, tags):
+    if t[0] == "W":
+        w = Window(width=mkD(t[2]), height=mkD(t[3]))
+        tags[w] = f"u{t[1]}"
+        return w
+    kids = [build_tree(c, tags) for c in t[3]]
+    pad = t[2] if isinstance(t[2], int) else mkD(t[2])
+    if t[0] == "H":
+        return HSplit(kids, padding=pad, align=VALIGN[t[1]])
+    return VSplit(kids, padding=pad, align=HALIGN[t[1]])
+
+
+def tag_aux(split, tags):
+    """tags for the windows a split creates itself: p(adding), f(iller), r(emaining), s(too small)"""
+    if isinstance(split, Window):
+        return
+    kids = split.children
+    allc = split._all_children
+    for i, c in enumerate(allc):
+        if any(c is k for k in kids):
+            continue
+        # fillers sit at the two ends, next to a child (or alone); padding sits between two children
+        edge = (i == 0 and (len(allc) == 1 or any(allc[1] is k for k in kids))) or \
+               (i == len(allc) - 1 and (len(allc) == 1 or any(allc[-2] is k for k in kids)))
+        tags[c] = "f" if edge else "p"
+    tags[split._remaining_space_window] = "r"
+    tags[split.window_too_small] = "s"
+    for k in kids:
+        tag_aux(k, tags)
+
+
+def real_tree(case):
+    """-> (status, [(tag, x, y, w, h)] in drawing order, root)"""
+    tags = {}
+    root = build_tree(case["tree"], tags)
+    tag_aux(root, tags)
+    screen = Screen()
+    app().render_counter += 1
+    x, y, w, h = case["wp"]
+    r = guarded(lambda: root.write_to_screen(screen, MouseHandlers(), WritePosition(x, y, w, h), "", False, None))
+    if r[0] != "ok":
+        return r, None, root
+    vis = screen.visible_windows_to_write_positions
+    return r, [(tags.get(win, "??"), p.xpos, p.ypos, p.width, p.height) for win, p in vis.items()], root
+
+
 def build(case):
     pad = case["pad"]
     padding = pad if isinstance(pad, int) else mkD(pad)
@@ -201,6 +278,10 @@ def model_lines(case):
         return out
     if k == "take":
         return [f"take {case['k']}" + "".join(f" {w}" for w in case["weights"])]
+    if k == "tree":
+        x, y, w, h = case["wp"]
+        tt = tree_tokens(case["tree"])
+        return [f"tree {x} {y} {w} {h} {tt}", f"tpw {w} {tt}", f"tph {w} {h} {tt}"]
     out = []
     for a in case["avails"]:
         out.append(f"div {case['dir']} {case['align']} {case['done']} {a} {req_tokens(case)}")
@@ -278,6 +359,17 @@ def impl_lines(case):
         ws = case["weights"]
         r = guarded(lambda: list(itertools.islice(take_using_weights(list(range(len(ws))), ws), case["k"])))
         return [enc_res(r)]
+    if k == "tree":
+        with done_ctx(False):
+            r, items, root = real_tree(case)
+            if r[0] != "ok":
+                return [enc_res(r)] * 3
+            x, y, w, h = case["wp"]
+            out = ["ok " + " ".join([str(len(items))] + [f"{t}:{a},{b},{c},{d}" for t, a, b, c, d in items])]
+            for f in (lambda: root.preferred_width(w), lambda: root.preferred_height(w, h)):
+                g = guarded(f)
+                out.append(enc_dim(g[1]) if g[0] == "ok" else enc_res(g))
+            return out
     out = []
     with done_ctx(case["done"]):
         split = build(case)
@@ -434,6 +526,28 @@ def oracle(case):
             elif any(ws[i] == 0 for i in r[1]):
                 v.append({"signature": "take_using_weights | zero-weight item yielded", "msg": f"{ws} -> {r}"})
         return v
+    if k == "tree":
+        with done_ctx(False):
+            r, items, _root = real_tree(case)
+        if r[0] == "hang":
+            return [{"signature": "nested write_to_screen | does not terminate", "msg": str(case)}]
+        if r[0] == "exc":
+            return [{"signature": f"nested write_to_screen | raises {r[1]}", "msg": str(case)}]
+        x, y, w, h = case["wp"]
+        for (t, a, b, c, d) in items:
+            if not (x <= a and a + c <= x + w and y <= b and b + d <= y + h):
+                v.append({"signature": "nested write_to_screen | window outside the region",
+                          "msg": f"{t} at {(a, b, c, d)} outside {case['wp']}: {case}"})
+                break
+        for i in range(len(items)):
+            for j in range(i + 1, len(items)):
+                _, a, b, c, d = items[i]
+                _, a2, b2, c2, d2 = items[j]
+                if a < a2 + c2 and a2 < a + c and b < b2 + d2 and b2 < b + d:
+                    v.append({"signature": "nested write_to_screen | windows overlap",
+                              "msg": f"{items[i]} overlaps {items[j]}: {case}"})
+                    return v
+        return v
     name = "HSplit._divide_heights" if case["dir"] == "h" else "VSplit._divide_widths"
     wname = "HSplit.write_to_screen" if case["dir"] == "h" else "VSplit.write_to_screen"
     with done_ctx(case["done"]):
@@ -553,6 +667,12 @@ def cases(tier, rng):
                "avails": [a, rng.choice(avails)], "done": rng.randrange(2) if d == "h" else 0,
                "wp": [rng.randrange(3), rng.randrange(3), a if d == "v" else rng.randrange(0, 4),
                       a if d == "h" else rng.randrange(0, 4)]}
+    # --- nested containers (random trees of depth <= 3, <= 3 children per split)
+    for _ in range(1500 if quick else 20000):
+        t = rand_tree(rng, rng.choice([1, 2, 3]), [0])
+        yield {"kind": "tree", "tree": t,
+               "wp": [rng.randrange(3), rng.randrange(3), rng.choice([0, 1, 5, rng.randrange(0, 40)]),
+                      rng.choice([0, 1, 4, rng.randrange(0, 25)])]}
     # --- random larger
     for _ in range(2500 if quick else 40000):
         n = rng.choice([0, 1, 2, 3, 4, 5, 8])
@@ -573,6 +693,8 @@ def sample_view(case):
 
 
 def nontrivial(case):
+    if case["kind"] == "tree":
+        return tree_size(case["tree"]) > 1 and case["wp"][2] > 0 and case["wp"][3] > 0
     if case["kind"] != "split":
         return case["kind"] == "take" and any(case["weights"])
     return len(case["children"]) > 0 and max(case["avails"]) > 0
@@ -580,9 +702,13 @@ def nontrivial(case):
 
 def distribution(cases):
     d = {"kind": {}, "children": {}, "dir": {}, "align": {}, "zero_weight_lists": 0, "with_layout": 0,
-         "done": 0, "max_avail": 0}
+         "done": 0, "max_avail": 0, "tree_nodes": {}}
     for c in cases:
         d["kind"][c["kind"]] = d["kind"].get(c["kind"], 0) + 1
+        if c["kind"] == "tree":
+            n = tree_size(c["tree"])
+            key = str(n) if n < 8 else "8+"
+            d["tree_nodes"][key] = d["tree_nodes"].get(key, 0) + 1
         if c["kind"] != "split":
             continue
         n = str(len(c["children"]))
